@@ -97,6 +97,23 @@ def case_roundtrip(ctx, rng, idx):
                           used != fft else None, cls="constructor", detail=tag)
     if not okc:
         return
+    if rng.random() < 0.3:
+        # a reconfiguration that is refused leaves the object as it was
+        bad = [(fft, cp, used + 2 if used + 2 > fft else fft + 2), (fft, cp, 3), (fft, cp, 0),
+               (2 * fft, cp, 2 * fft + 2), (fft, fft + 1, used), (fft, -1, used)][
+            int(rng.integers(0, 6))]
+        try:
+            o.set_parameters(*bad)
+            ctx.ev("rejects-invalid-parameters", False, cls="set_parameters-accepted",
+                   detail={**tag, "bad": bad})
+            return
+        except ValueError:
+            ctx.ev("rejects-invalid-parameters", True)
+        ctx.ev("rejects-invalid-parameters",
+               (o.fft_size, o.cp_size, o.num_used_subcarriers) == (fft, cp, used),
+               cls="state-changed-by-refused-call",
+               detail={**tag, "bad": bad, "now": [o.fft_size, o.cp_size, o.num_used_subcarriers]})
+        tag["refused-reconfiguration"] = list(bad)
     lc = rng.random()
     n = used * int(rng.integers(1, 5)) if lc < 0.3 else int(rng.integers(1, 4 * used + 1))
     if fft >= 1024:
@@ -198,6 +215,11 @@ def gen_taps(rng, cp, fft):
         if rng.random() < 0.5:
             delays = np.sort(delays)
     powers = rng.uniform(-20, 0, delays.size)
+    if rng.random() < 0.35 and delays.size > 1:
+        # a profile with weak late echoes: 40-60 dB below the strongest tap
+        powers = rng.uniform(-60, 0, delays.size)
+        powers[int(rng.integers(0, delays.size))] = 0.0
+        powers[int(rng.integers(0, delays.size))] = -float(rng.uniform(31, 60))
     return delays, powers, mem, mclass
 
 
